@@ -178,7 +178,7 @@ class RunRestores(Harness):
             if dt.logged_stdout.get(i) != text and not (i == f and kind in ('system_exit', 'keyboard_interrupt')):
                 ok = False
         props['logged_stdout_is_what_each_part_wrote'] = z3.BoolVal(ok)
-        if kind in ('system_exit', 'keyboard_interrupt') and f in wrote:
+        if kind in ('system_exit', 'keyboard_interrupt') and f in wrote and not closed_capture:
             props['base_exception_propagates'] = z3.BoolVal(outcome in ('SystemExit', 'KeyboardInterrupt'))
         # a doctest run next receives nothing of it
         E.behaviour[50] = lambda code, glb: sys.stdout.write('B\n')
